@@ -417,6 +417,8 @@ def fam_lock(tier, base):
     dead = [a for a in ("Call", "Acquire", "TryFail", "WaitTimeout", "Release", "Expire", "Notice", "Tick") if r.coverage.get(a, 0) == 0]
     if dead:
         raise Broken("Lock model: actions never taken: %s" % dead)
+    # unbounded in the number of steps: Mutex and the notice bound follow from an inductive invariant (Apalache, 4 clients)
+    verif.apalache_inductive("LockInd", "CInit", "IndInit", "IndInv")
     trace = base + ".trace.ndjson"
     b = verif.build_driver("locks")
     t1, t2 = base + ".t1", base + ".t2"
@@ -428,7 +430,7 @@ def fam_lock(tier, base):
     viols, tr = verif.validate_trace("Trace_Lock", "Trace_Lock.cfg", trace)
     lines = verif.read_lines(trace)
     cnt = lambda s: sum(1 for ln in lines if s in ln)
-    return dict(trace=trace, viols=viols, states=r.distinct, transitions=r.generated, configs=["MC_Lock.cfg", "Trace_Lock.cfg"], window=6,
+    return dict(trace=trace, viols=viols, states=r.distinct, transitions=r.generated, configs=["MC_Lock.cfg", "LockInd.tla (Apalache: IndInv inductive)", "Trace_Lock.cfg"], window=6,
                 traces={"C18": cnt('"ev":"LockRun"') + cnt('"ev":"LossRun"'), "C19": cnt('"ev":"LossRun"')},
                 samples={"*": [json.loads(x) for x in lines[:6]], "C19": [json.loads(x) for x in lines if '"Expire"' in x or '"CtxDone"' in x][:4]},
                 nontrivial={"C18": cnt('"ev":"Enter"'), "C19": cnt('"ev":"Expire"')}, actions_covered=r.coverage, exhaustive=True,
